@@ -262,8 +262,18 @@ pub fn finish(rep: Report, spaces: &[Box<dyn Space>], results: Vec<SpaceResult>,
             println!("  ... {} further violation signatures not printed (all are in the evidence file)", violations.len() - k);
             break;
         }
-        let again = eval_caught(spaces[*si].as_ref(), *idx);
-        if !again.issues.iter().any(|i| &i.sig == sig) {
+        // a subject that is itself non-deterministic (random hashing, evictions ...) may not show the same symptom on
+        // every execution: re-execute a few times before giving up (16 times for determinism oracles)
+        let tries = if sig.starts_with("not-deterministic") { 16 } else { 3 };
+        let mut reproduced = false;
+        for _ in 0..tries {
+            let again = eval_caught(spaces[*si].as_ref(), *idx);
+            if again.issues.iter().any(|i| &i.sig == sig) {
+                reproduced = true;
+                break;
+            }
+        }
+        if !reproduced {
             eprintln!("MACHINERY: violation {} at {}[{}] did not reproduce on re-execution", sig, results[*si].name, idx);
             machinery_fail = true;
             continue;
